@@ -217,12 +217,12 @@ def _decoder_item(c, tl):
     obs = []
     N, k = c["N"], c["k"]
     regime, kind = c["regime"], c["decoder"]
-    config = f"{kind}[{regime}] @ {cfgstr(c)}" + (f" iters={c['iters']}" if kind == "bp" else "")
+    config = f"{kind}[{regime}] @ {cfgstr(c)}" + (f" iters={c['iters']}" if kind == "bp" else "") + (f" {c['opts']}" if c.get("opts") else "")
     enc = mk_encoder(c)
     if kind == "sc":
         dec = quiet(SuccessiveCancellationDecoder, enc, regime=regime)
     else:
-        dec = quiet(BeliefPropagationPolarDecoder, enc, regime=regime, bp_iters=c["iters"])
+        dec = quiet(BeliefPropagationPolarDecoder, enc, regime=regime, bp_iters=c["iters"], **(c.get("opts") or {}))
     info = [bool(b) for b in enc.info_indices.tolist()]
 
     def rec(clause, status, **kw):
@@ -345,9 +345,9 @@ def all_items():
         add_enc(N, k, True, False, mask)
         add_enc(N, k, False, True, mask)
 
-    def add_dec(kind, regime, N, k, fz, pi, iters=None, stretch=False, mask=None):
-        c = dict(N=N, k=k, frozen_zeros=fz, polar_i=pi, mask=mask, decoder=kind, regime=regime, iters=iters)
-        items.append(dict(type="dec", c=c, config=f"{kind}[{regime}] {cfgstr(c)}", stretch=stretch))
+    def add_dec(kind, regime, N, k, fz, pi, iters=None, stretch=False, mask=None, opts=None):
+        c = dict(N=N, k=k, frozen_zeros=fz, polar_i=pi, mask=mask, decoder=kind, regime=regime, iters=iters, opts=opts)
+        items.append(dict(type="dec", c=c, config=f"{kind}[{regime}] {cfgstr(c)}" + (f" iters={iters}" if iters else "") + (f" {opts}" if opts else ""), stretch=stretch))
     for N in (2, 4, 8) + ((16,) if TIER == "thorough" else ()):
         ks = list(range(1, N)) if N <= 4 else ([N // 2, N - 2, 2] if N == 8 else [8, 5])
         for k in ks:
@@ -370,6 +370,11 @@ def all_items():
     for N, k in ((2, 1), (4, 2), (4, 3)) + (((8, 4),) if TIER == "thorough" else ()):
         for iters in (1, 2) + ((3,) if TIER == "thorough" else ()):
             add_dec("bp", "min_sum", N, k, True, False, iters=iters, stretch=(N == 8))
+    # belief propagation with its options: factor-graph permutations, early stopping, frozen ones
+    for N, k in ((4, 2), (4, 3)) + (((8, 4),) if TIER == "thorough" else ()):
+        for opts in (dict(early_stop=True), dict(perm="cycle"), dict(perm="cycle", early_stop=True)):
+            add_dec("bp", "min_sum", N, k, True, False, iters=2, opts=opts, stretch=(N == 8))
+        add_dec("bp", "min_sum", N, k, False, False, iters=2, opts=dict(perm="cycle", early_stop=True), stretch=(N == 8))
     items.append(dict(selftest=True, config="selftest"))
     return items
 
